@@ -1,30 +1,56 @@
 """C15 — per-property knobs of ./check (see DESIGN.md §6 C15)."""
-THEOREMS_TIED = ["Rustic.Props.C15.append_only_no_removal", "Rustic.Props.C15.dry_run_no_ops",
-                 "Rustic.Props.C15.expected_agrees_with_table"]
+THEOREMS_TIED = ["Rustic.Props.C15.append_only_no_removal", "Rustic.Props.C15.destructive_refused_before_storage",
+                 "Rustic.Props.C15.dry_run_no_ops", "Rustic.Props.C15.expected_agrees_with_table",
+                 "Rustic.Props.C15.table_covers_api", "Rustic.Props.C15.table_rows_exist", "Rustic.Props.C15.dry_flags_covered",
+                 "Rustic.Props.C15.every_dry_flag_has_effective_twin", "Rustic.Props.C15.append_only_left_only_by_config"]
 
 TRUSTED = [
-    "hand-written command table lean/Rustic/Model/CommandTable.lean (one row per public Repository operation, read off repository.rs, commands/{backup,prune,rewrite,config}.rs, commands/repair/*.rs, blob/tree/modify.rs, backend/dry_run.rs) — the theorems are as good as this table",
-    "traffic harness harness/src/c15.rs over harness/src/repo.rs MemBackend (op log of every write_bytes/remove the real commands issue) and OneConfigBackend (single config file)",
-    "content addressing: a write under an existing id carries identical bytes (checked by the harness: every pre-existing snapshot/index/pack file is byte-identical after every command)",
+    "hand-written command table lean/Rustic/Model/CommandTable.lean: WHAT each row may write/remove and where it is refused is read off repository.rs, "
+    "commands/{backup,prune,rewrite,config,merge,copy,init,restore}.rs, commands/repair/*.rs, blob/tree/modify.rs, backend/dry_run.rs and validated by traffic; "
+    "WHICH methods exist is not trusted: tools/c15_api_table.py regenerates lean/Rustic/Gen/RepositoryApi.lean from the current repository.rs on every run "
+    "(regex: `pub fn` inside inherent `impl … Repository<…>` blocks; `dry_run: bool` parameters; `pub dry_run: bool` fields under crates/core/src) and the "
+    "theorems table_covers_api / table_rows_exist / dry_flags_covered must re-prove",
+    "the reviewed read-only list (`Cmd.methods .readOnly`, 53 constructors / accessors / readers): reviewed by hand; the ones the harness calls (token `readonly`, "
+    "check, restore, prune_plan, prepare_restore) are checked to issue no write/remove",
+    "traffic harness harness/src/c15.rs over harness/src/repo.rs MemBackend (op log of every write_bytes/remove the real commands issue, on the cold AND the hot store) "
+    "and OneConfigBackend (single config file)",
+    "content addressing: a write under an existing id carries identical bytes (checked by the harness: every pre-existing snapshot/index/pack file of every store is "
+    "byte-identical after every command)",
 ]
 ASSUMPTIONS = [
-    "plain (not hot/cold) repository, in-memory backend, no cache; hot/cold traffic belongs to C16",
-    "operations that exist only in the CLI (e.g. `forget --prune` orchestration) are compositions of the library operations in the table",
-    "key add/remove are in the table (key files are outside the property's protected set) but only exercised by the corpus (scrypt cost)",
+    "in-memory backends, no local cache; hot/cold pairs are two recorded in-memory stores (crash/fault interleavings of hot/cold belong to C16)",
+    "operations that exist only in the CLI (`forget --prune`, `merge --delete`) are compositions of the library operations in the table; `merge --delete` is "
+    "exercised as merge_snapshots followed by delete_snapshots",
+    "there is no dry-run flag in prune (prune_plan is the dry form; `prune` executes a plan), copy, merge, apply_config, add_key/delete_key, delete_snapshots, "
+    "init* — confirmed mechanically by dry_flags_covered; prepare_restore's dry_run concerns the local destination (the repository is read-only either way)",
+    "append-only protects snapshot/index/pack files; key and config files are outside the protected set — in particular `init_with_config` over an existing "
+    "append-only repository replaces the config (and so can clear the flag) without any guard: the table has that row and the traffic check confirms it (token `reinit`)",
+    "on damaged setups (all data packs lost before the flag was set) the observation is coarse (refused|ran + kinds without snapshot writes); the oracles are not",
 ]
-RULE = ("ops from harness/src/c15.rs (VERIF_SEED): every command token once on a freshly append-only repository holding two snapshots; random sequences of 2..7 commands "
-        "(backup new/same/dry, forget, prune variants, prune_plan, repair index/snapshots with and without delete/dry-run/read-all, rewrite snapshots/trees with and without "
-        "forget/dry-run, config changes incl. switching append-only off and on again, copy into, check, restore, repair hotcold); every dry-run flag on an intact repository, "
-        "after removing an index file, after removing a data pack. Non-trivial = every case (each runs real commands against recorded storage); distinct by hash of (op, observation).")
-EXPLANATION = ("Theorems (over the command table): on an append-only repository no command issues a removal of snapshot/index/pack; every command that can remove such files is "
-               "refused before any storage operation; a dry-run flag means no operation at all; along any history of conforming commands every protected file survives while the "
-               "flag is on; the flag can only be cleared by apply_config(set_append_only=false); the harness' expectations agree with the table. Correspondence: result and kinds of "
-               "storage operations of the real commands equal the table's; oracles: pre-existing protected files byte-identical after every command on an append-only repository, "
-               "refused command => empty op log, dry-run => whole store byte-identical.")
+RULE = ("ops from harness/src/c15.rs (VERIF_SEED): every command token once on a freshly append-only repository holding two snapshots, on four setups (plain, hot/cold, "
+        "damaged = every data pack lost so that both snapshots need repair, damaged hot/cold); the allowed path of every destructive command (append-only switched "
+        "off, and switched off and on again); random sequences of 2..7 commands over 46 tokens (backup new/same/dry, forget, prune variants, prune_plan, repair "
+        "index/snapshots with and without delete/dry-run/read-all, rewrite snapshots/trees with and without forget/dry-run/tree-changing exclude, merge with and "
+        "without deleting the merged snapshots, config changes incl. switching append-only off and on again, key add/remove, copy into, check, restore, restore "
+        "planning with its dry-run flag, a batch of ~30 read-only methods, repair hotcold (4 forms), init / init_with_config / init_hot over the existing repository); "
+        "every dry-run flag on intact and damaged repositories (`dry`), and 36 `dryt` scenarios where the NON-dry twin is run afterwards on the same repository and what "
+        "it wrote/removed is part of the observation. Non-trivial = every case (each runs real commands against recorded storage); distinct by hash of (op, observation).")
+EXPLANATION = ("Theorems (over the command table, for plain and hot/cold repositories): on an append-only repository no command issues a removal of snapshot/index/pack; "
+               "every command that can remove such files is refused before any storage operation; a dry-run flag means no operation at all; along any history of "
+               "conforming commands every protected file survives while the flag is on; the flag can only be cleared by apply_config(set_append_only=false) or by "
+               "init_with_config over the repository; the harness' expectations agree with the table; the table classifies exactly the public methods of Repository in "
+               "the current source and every dry-run flag of the current source, and every dry-run row has a scenario (also on hot/cold) whose non-dry twin really "
+               "writes/removes. Correspondence: result and kinds of storage operations of the real commands equal the table's, on both stores of hot/cold pairs; "
+               "oracles: pre-existing protected files byte-identical in every store after every command on an append-only repository, refused command => empty op log, "
+               "dry-run => every store byte-identical, read-only methods => empty op log.")
 
 
 def nontrivial(op, obs):
     return obs.startswith("ok ")
+
+
+def _split(obs):
+    return obs[3:].split(",") if obs.startswith("ok ") else []
 
 
 def finding_key(op, impl, model):
@@ -33,33 +59,48 @@ def finding_key(op, impl, model):
     if impl.startswith(("panic", "oracle-fail", "err")):
         return k + ":" + impl.split(" ")[0][:90]
     # first differing command
-    a, b = impl[3:].split(","), model[3:].split(",")
-    for x, y in zip(a, b):
+    for x, y in zip(_split(impl), _split(model)):
         if x != y:
             return k + ":" + x
     return k
 
 
+def _parts(elem):
+    """'<cmd>=<result>:<kinds>' -> (cmd, result, [kinds]); dry channel '<cmd>=<kinds>[ twin=…]' -> (cmd, '', [kinds])"""
+    cmd, _, rest = elem.partition("=")
+    rest = rest.split(" ")[0]
+    if ":" in rest:
+        res, _, kinds = rest.rpartition(":")
+    else:
+        res, kinds = "", rest
+    return cmd, res, kinds.split("+")
+
+
+PROTECTED_REMOVALS = ("r.snapshot", "r.index", "r.pack")
+
+
 def is_property_failure(op, impl, model):
-    # oracle failures are direct violations; a removal of a protected file kind or any operation under a dry-run
-    # flag that the table does not predict is a failing input too.  Other disagreements (e.g. an additional
-    # snapshot write) are table/code mismatches without a property failure.
+    # oracle failures are direct violations; a removal of a protected file kind the table does not predict, any operation
+    # under a dry-run flag, and an accepted destructive command are failing inputs too.  Other disagreements (an additional
+    # snapshot write, a different twin) are table/code mismatches without a property failure.
     if impl.startswith(("oracle-fail", "panic")):
         return True
     if not impl.startswith("ok "):
         return False
-    a, b = impl[3:].split(","), model[3:].split(",")
-    for x, y in zip(a, b):
+    chan = op.split(" ")[1] if " " in op else ""
+    if chan in ("dry", "dryt"):
+        _, _, kinds = _parts(impl[3:])
+        return kinds != ["-"]
+    for x, y in zip(_split(impl), _split(model)):
         if x == y:
             continue
-        kinds = x.rsplit(":", 1)[-1].split("+") if ":" in x else x.split("=")[-1].split("+")
-        if any(k in ("r.snapshot", "r.index", "r.pack") for k in kinds):
+        cmd, res, kinds = _parts(x)
+        _, mres, mkinds = _parts(y)
+        if any(k in PROTECTED_REMOVALS and k not in mkinds for k in kinds):
             return True
-        if op.split(" ")[1] == "dry" and x.split("=")[-1] != "-":
-            return True
-        if ".dry" in x.split("=")[0] and kinds != ["-"] and kinds != ["*"]:
+        if "dry" in cmd.split(".") and kinds not in (["-"], ["*"]):
             return True
         # an accepted destructive command
-        if y.split("=")[1].startswith("err:") and x.split("=")[1].startswith("ok"):
+        if (mres.startswith("err:") or mres == "refused") and res in ("ok", "ran"):
             return True
     return False
